@@ -1494,8 +1494,13 @@ package engine
 //@ -- the per-term loop of a load (parsing, expansion, directives): assumed not to touch the procedure table
 //@ -- ("side-effect-free directives" of the property statement) and to keep the text's invariants
 //@ func (*VM).compile
-//@   trusted
+//@   property C20
+//@   assumed-post
+//@   checks only at-call at-call-missing
+//@   nosafety
 //@   modifies heap
+//@   loop 1 invariant true
+//@   at-call (*Parser).Term#1 requires[each-clause-is-read-with-its-own-variables] len(local(p, *Parser).Vars) == 0
 //@   ensures[directives-do-not-define-procedures] vm.procedures == old(vm.procedures) && forall q procedureIndicator :: has(vm.procedures, q) == old(has(vm.procedures, q)) && vm.procedures[q] == old(vm.procedures[q])
 //@   ensures[text-invariants] result == nil ==> text.clauses != nil &&
 //@       (forall q procedureIndicator :: has(text.clauses, q) ==> text.clauses[q] != nil) &&
